@@ -94,6 +94,30 @@ def run(replay=None):
             ck.impl_violation("real-short-function-accepted", "function %s has an extent of %d bytes but a scanned size of %d" % (r["name"], r["extent"], r["funcsize"]), r)
         elif k == "extent_sweep":
             ck.notes["extent_sweep"] = r
+    # the extent scan against the model (Model/FuncSize.v), on the decoder's own report of a sample of functions
+    scans = [r for r in rows if r.get("kind") == "scans"]
+    if scans and scans[0]["scans"]:
+        sc = scans[0]["scans"]
+        L = ["From Coq Require Import List ZArith Bool. Import ListNotations.",
+             "From Goom Require Import Model.FuncSize. Open Scope Z_scope.",
+             "Definition dec (z : Z) : item := if z =? 0 then IStop else if 100 <=? z then IInt3 (z =? 101) else IOrd (z / 2) (Z.odd z).",
+             "Definition cases : list (Z * list Z * Z) := ["]
+        L.append(";\n".join("  (%d, %s, %d)" % (i, vlib.zlist(x["items"]), x["size"]) for i, x in enumerate(sc)))
+        L.append("].")
+        L.append("Definition M := Eval vm_compute in map (fun c => fst (fst c)) (filter (fun c => negb (func_size (map dec (snd (fst c))) =? snd c)) cases).")
+        L.append("Eval vm_compute in M.")
+        rc3, out3 = vlib.coq_eval("c14_scans", "\n".join(L) + "\n", ck.wd, timeout=600)
+        m3 = re.search(r"=\s*(\[.*?\])\s*:\s*list Z", out3.replace("\n", " "))
+        if rc3 != 0 or not m3:
+            ck.obligation_broken("correspondence C14 extent scan (coqc evaluation failed)", out3[-1200:])
+        else:
+            bad = [int(x) for x in re.findall(r"\d+", m3.group(1))]
+            ck.notes["extent_scans_compared"] = len(sc)
+            if bad:
+                ck.obligation_broken("correspondence C14: GetFuncSize and the model differ on %d of %d functions, e.g. %s (scanned %d)" % (
+                    len(bad), len(sc), sc[bad[0]]["name"], sc[bad[0]]["size"]), json.dumps(sc[bad[0]])[:1500])
+    elif not ck.violations:
+        ck.obligation_broken("harness: no extent scans were recorded", "")
     nwrites = summ[0]["writes"] if summ else 0
     tiny = [r for r in rows if r.get("kind") == "tiny"]
     ck.coverage["evaluations"] = nwrites + len(tiny) + (ck.notes.get("extent_sweep", {}).get("functions", 0))
